@@ -1,4 +1,5 @@
 import Mathlib.Tactic.Ring
+import Mathlib.Algebra.Order.Field.Rat
 import PyPhysim.Model.C06Heap
 
 /-! C06: parameter grids — `np.union1d`, the order of `get_unpacked_params_list`
@@ -6,7 +7,7 @@ and the row-major index computed by `get_pack_indexes`. -/
 namespace PyPhysim.C06M
 open PyPhysim.Proto
 
-theorem mem_insertUniq (x y : Int) (l : List Int) : y ∈ insertUniq x l ↔ y = x ∨ y ∈ l := by
+theorem mem_insertUniq (x y : Rat) (l : List Rat) : y ∈ insertUniq x l ↔ y = x ∨ y ∈ l := by
   induction l with
   | nil => simp [insertUniq]
   | cons z zs ih =>
@@ -17,7 +18,7 @@ theorem mem_insertUniq (x y : Int) (l : List Int) : y ∈ insertUniq x l ↔ y =
       · rename_i h; subst h; simp
       · simp [ih]; tauto
 
-theorem sorted_insertUniq (x : Int) (l : List Int) (h : l.Pairwise (· < ·)) :
+theorem sorted_insertUniq (x : Rat) (l : List Rat) (h : l.Pairwise (· < ·)) :
     (insertUniq x l).Pairwise (· < ·) := by
   induction l with
   | nil => simp [insertUniq]
@@ -29,24 +30,24 @@ theorem sorted_insertUniq (x : Int) (l : List Int) (h : l.Pairwise (· < ·)) :
       exact List.pairwise_cons.mpr ⟨fun a ha => by
         rcases List.mem_cons.mp ha with e | e
         · exact e ▸ hlt
-        · exact Int.lt_trans hlt (h1 a e), h⟩
+        · exact lt_trans hlt (h1 a e), h⟩
     · split
       · exact h
       · rename_i hnl hne
         refine List.pairwise_cons.mpr ⟨fun a ha => ?_, ih h2⟩
         rcases (mem_insertUniq x a zs).mp ha with e | e
-        · subst e; omega
+        · subst e; exact lt_of_le_of_ne (not_lt.mp hnl) (Ne.symm hne)
         · exact h1 a e
 
-theorem mem_union1d (a b : List Int) (x : Int) : x ∈ union1d a b ↔ x ∈ a ∨ x ∈ b := by
+theorem mem_union1d (a b : List Rat) (x : Rat) : x ∈ union1d a b ↔ x ∈ a ∨ x ∈ b := by
   unfold union1d
-  suffices ∀ l : List Int, x ∈ l.foldr insertUniq [] ↔ x ∈ l by rw [this]; simp
+  suffices ∀ l : List Rat, x ∈ l.foldr insertUniq [] ↔ x ∈ l by rw [this]; simp
   intro l
   induction l with
   | nil => simp
   | cons y ys ih => simp [List.foldr, mem_insertUniq, ih]
 
-theorem sorted_union1d (a b : List Int) : (union1d a b).Pairwise (· < ·) := by
+theorem sorted_union1d (a b : List Rat) : (union1d a b).Pairwise (· < ·) := by
   unfold union1d
   generalize a ++ b = l
   induction l with
@@ -55,7 +56,7 @@ theorem sorted_union1d (a b : List Int) : (union1d a b).Pairwise (· < ·) := by
 
 /-! ### product order and pack index -/
 
-theorem length_product (vals : List (List Int)) : (product vals).length = dimsProd vals := by
+theorem length_product (vals : List (List Rat)) : (product vals).length = dimsProd vals := by
   induction vals with
   | nil => rfl
   | cons vs rest ih =>
@@ -64,7 +65,7 @@ theorem length_product (vals : List (List Int)) : (product vals).length = dimsPr
     | nil => simp
     | cons v vs' ihv => simp [List.flatMap_cons, ih, ihv, Nat.succ_mul, Nat.add_comm]
 
-theorem mem_product (vals : List (List Int)) (c : List Int) :
+theorem mem_product (vals : List (List Rat)) (c : List Rat) :
     c ∈ product vals ↔ List.Forall₂ (· ∈ ·) c vals := by
   induction vals generalizing c with
   | nil =>
@@ -82,7 +83,7 @@ theorem mem_product (vals : List (List Int)) (c : List Int) :
       cases h with
       | cons hv hrest => exact ⟨_, hv, _, (ih _).mpr hrest, rfl⟩
 
-theorem indexOf?_some {x : Int} {l : List Int} {i : Nat} (h : indexOf? x l = some i) : l[i]? = some x := by
+theorem indexOf?_some {x : Rat} {l : List Rat} {i : Nat} (h : indexOf? x l = some i) : l[i]? = some x := by
   induction l generalizing i with
   | nil => simp [indexOf?] at h
   | cons y ys ih =>
@@ -93,7 +94,7 @@ theorem indexOf?_some {x : Int} {l : List Int} {i : Nat} (h : indexOf? x l = som
       | none => simp [hi] at h
       | some j => simp [hi] at h; subst h; simpa using ih hi
 
-theorem indexOf?_none {x : Int} {l : List Int} (h : indexOf? x l = none) : x ∉ l := by
+theorem indexOf?_none {x : Rat} {l : List Rat} (h : indexOf? x l = none) : x ∉ l := by
   induction l with
   | nil => simp
   | cons y ys ih =>
@@ -128,7 +129,7 @@ theorem getElem?_flatMap_block {α β} (f : α → List β) (n : Nat) (l : List 
 
 /-- `get_pack_indexes` points at the combination in the enumeration order of
     `get_unpacked_params_list` -/
-theorem packIndex_ok (vals : List (List Int)) (c : List Int) (i : Nat) (hlen : c.length = vals.length)
+theorem packIndex_ok (vals : List (List Rat)) (c : List Rat) (i : Nat) (hlen : c.length = vals.length)
     (h : packIndex vals c = .ok i) : (product vals)[i]? = some c := by
   induction vals generalizing c i with
   | nil =>
@@ -161,7 +162,7 @@ theorem packIndex_ok (vals : List (List Int)) (c : List Int) (i : Nat) (hlen : c
           simp [hcs]
 
 /-- … and fails with `ValueError` exactly when a value of the combination is absent -/
-theorem packIndex_error (vals : List (List Int)) (c : List Int) (e : PyErr) (hlen : c.length = vals.length)
+theorem packIndex_error (vals : List (List Rat)) (c : List Rat) (e : PyErr) (hlen : c.length = vals.length)
     (h : packIndex vals c = .error e) : e = .ValueError ∧ c ∉ product vals := by
   induction vals generalizing c with
   | nil =>
